@@ -344,6 +344,20 @@ def check_options(prog, r):
                         tested.add(x[3])
             if any(n.endswith("policy::match_string_set") for n in names):
                 full = ms_vals >= OPTS
+        # `match opt { MatchOption::All => .., _ => .. }` under the arm, in evalute itself or in a closure it creates there
+        def under_arm(bi):
+            return any(l == {v} for g, l, how in flat_guards(efv, bi, brs)
+                       if g[0] == "discr" and g[2] and g[2].endswith("policy::Condition") and "self" in expr_vars(g))
+        bodies = [(efv, None)]
+        for bi in sorted(efv.live):
+            for s_ in efv.blocks[bi]["s"]:
+                rv = s_.get("rv")
+                if rv and rv.get("r") == "agg" and rv.get("k") == "closure" and under_arm(bi):
+                    bodies.append((view(prog, rv["def"]), bi))
+        for fvx, created in bodies:
+            for bi, br in branches(fvx).items():
+                if br.expr[0] == "discr" and br.adt and br.adt.endswith("MatchOption") and (created is not None or under_arm(bi)):
+                    tested |= {br.label(prog, c) for c, _ in br.cases}
         accepted = OPTS - rejected[v]
         if full:
             r.ok("Condition::%s: all options distinguished by match_string_set" % v)
